@@ -585,3 +585,47 @@ def self_field(fi: FuncInfo, name: str) -> S:
         if g is not None and g != fi.name:
             return ("a", ("self",), g)
     return ("a", ("self",), name)
+
+
+def new_helper_calls(ctx: Ctx, fi: FuncInfo):
+    """calls, left in ``fi`` after the look-through, of helpers the reference tree does not have (a piece of ``fi`` cut out into
+    a function of its own that is not a single expression / statement sequence): (helper, {helper parameter index: the
+    parameter index of ``fi`` whose value it receives}) for every such call, transitively.  A rule that looks for a step of ``fi``
+    can look for it in these helpers, with the roles of the parameters carried over."""
+    from framelint.srcmodel import _reference_functions
+    ref = _reference_functions() or set()
+    out, seen = [], {fi.where}
+
+    def params(g):
+        a = g.node.args
+        return [x.arg for x in a.posonlyargs + a.args]
+
+    def rec(g, roles):            # roles: parameter name of g -> parameter index of fi
+        stored = {n.id for n in walk_own(g.node) if isinstance(n, ast.Name) and isinstance(n.ctx, ast.Store)}
+        for c in walk_own(g.node):
+            if not isinstance(c, ast.Call):
+                continue
+            try:
+                hs = ctx.model.resolve_call(g, c)
+            except Exception:
+                hs = []
+            hs = list(hs)
+            if len(hs) != 1 or hs[0].where in ref or hs[0].where in seen:
+                continue
+            h = hs[0]
+            seen.add(h.where)
+            hp = params(h)
+            off = 1 if hp[:1] == ["self"] and isinstance(c.func, ast.Attribute) else 0
+            binding = {}
+            for k, a in enumerate(c.args):
+                if isinstance(a, ast.Name) and a.id in roles and a.id not in stored and k + off < len(hp):
+                    binding[hp[k + off]] = roles[a.id]
+            for kw in c.keywords:
+                if kw.arg in hp and isinstance(kw.value, ast.Name) and kw.value.id in roles and kw.value.id not in stored:
+                    binding[kw.arg] = roles[kw.value.id]
+            out.append((h, {hp.index(n) - off: r for n, r in binding.items()}))
+            rec(h, binding)
+    p0 = params(fi)
+    off0 = 1 if p0[:1] == ["self"] else 0
+    rec(fi, {n: i - off0 for i, n in enumerate(p0) if i >= off0})
+    return out
